@@ -840,3 +840,46 @@ func (c *Ctx) ruleConverters(rule string) {
 }
 
 var _ = token.ADD
+
+// R-DISCTYPE (C01): what Unserialize stores under the discriminator key must be what Validate / Serialize look for
+// there. validateMap asserts the stored discriminator to KeyType; every store into a map under the discriminator
+// field name inside the one-of type must therefore have dynamic type KeyType (the typed discriminator), not the raw
+// decoded value (after CBOR a positive integer is a uint64: Unserialize accepts it, Validate rejects its own result).
+func (c *Ctx) ruleDiscType(rule string) {
+	dt := core.NewDynTypes(c.M)
+	n := 0
+	for _, fn := range c.M.SortedFuncs(c.scopePkg("schema")) {
+		cnt := 0
+		for _, b := range fn.Blocks {
+			for _, in := range b.Instrs {
+				mu, ok := in.(*ssa.MapUpdate)
+				if !ok {
+					continue
+				}
+				if !strings.HasSuffix(c.M.ValPath(mu.Key), ".DiscriminatorFieldNameValue") {
+					continue
+				}
+				n++
+				cnt++
+				k := key(rule, c.M.Key(fn), sprintf("store under the discriminator key #%d", cnt))
+				ts := dt.Of(mu.Value, b)
+				good := !ts.Top && !ts.MayNil && len(ts.Types) > 0
+				for _, t := range ts.Types {
+					tp, isTP := t.(*types.TypeParam)
+					if !isTP || !coreNonInterface(tp) {
+						good = false
+					}
+				}
+				if good {
+					c.R.Ok(rule, k, c.M.InstrPos(mu), "discriminator stored into a result map", "the stored value has the one-of's key type: "+ts.String())
+				} else {
+					c.R.Bad(rule, k, c.M.InstrPos(mu), "the discriminator stored into the result is not of the one-of's key type",
+						"provenance of the stored value: "+ts.String()+"; Validate and Serialize assert the discriminator to the key type, so a raw decoded discriminator (uint64 / int / float after CBOR or YAML) makes them reject what Unserialize accepted")
+				}
+			}
+		}
+	}
+	if n == 0 {
+		c.R.Unresolved(rule, "store under the discriminator key")
+	}
+}
